@@ -416,7 +416,8 @@ class ProgGen:
         for bi, (li, lo) in enumerate(zip(letters_in, letters_out)):
             regs = []
             shared = letters_out.count(lo) > 1 and bi == 1
-            for j in range(rng.randint(1, 4)):
+            # now and then a bank without any register (legal: it only has its control signals)
+            for j in range(0 if rng.random() < 0.12 else rng.randint(1, 4)):
                 w = rng.choice(WIDTHS)
                 rname = ("s%d" if shared else "r%d") % j if rng.random() < 0.7 else ("sreg_%s%d" if shared else "reg_%s%d") % ("y" * rng.randint(1, 30), j)
                 d = rng.getrandbits(min(w, 20))
